@@ -88,6 +88,19 @@ def sites():
     def table_alias(Q, n):
         ta = Table("t").as_(n)
         return str(Q.from_(ta).select(ta.x).where(ta.y == 1))
+    # the alias of a DML target: its columns are qualified with it, so it has to be introduced next to the table (DEFINES below)
+    def update_table_alias(Q, n):
+        ta = _Table("t").as_(n)
+        return str(Q.update(ta).set(ta.x, 1).where(ta.y == 2))
+    def delete_table_alias(Q, n):
+        ta = _Table("t").as_(n)
+        return str(Q.from_(ta).delete().where(ta.y == 2))
+    def update_join_alias(Q, n):
+        from pypika_tortoise import PostgreSQLQuery, SQLLiteQuery
+        if Q in (SQLLiteQuery, PostgreSQLQuery):
+            return None  # (their UPDATE .. FROM emulation derives a second alias  <name>_  from the supplied one: not a verbatim emission site)
+        ta = _Table("t").as_(n)
+        return str(Q.update(ta).join(u).on(ta.x == u.x).set(ta.x, u.y).where(ta.y == 2))
     def select_alias(Q, n): return str(Q.from_(t).select(t.x.as_(n)))
     def select_alias_groupby(Q, n):
         f = t.x.as_(n)
@@ -124,6 +137,14 @@ def sites():
     def create_unique_column(Q, n): return render(Q, Q.create_table("t").columns(Column("x", "INT")).unique(shared(("Cu", n), lambda: Column(n))))
     def create_period(Q, n): return render(Q, Q.create_table("t").columns(Column("x", "INT")).period_for(n, "x", "x"))
     def create_period_col(Q, n): return render(Q, Q.create_table("t").columns(Column("x", "INT")).period_for("p", n, "x"))
+    # CREATE TABLE .. AS (select): the select is part of the statement being rendered, whichever class built it
+    def create_as_select_table(Q, n):
+        from pypika_tortoise import Query as G
+        return render(Q, Q.create_table("c").as_select(G.from_(Table(n)).select("x")))
+    def create_as_select_column(Q, n):
+        from pypika_tortoise import Query as G
+        return str(Q.create_table("c").as_select(G.from_(t).select(t.field(n)).where(t.field(n) == 1)))
+    def create_as_select_own(Q, n): return str(Q.create_table("c").as_select(Q.from_(Table(n)).select("x")))
     def drop_table(Q, n): return render(Q, Q.drop_table(n))
     # the same DDL through the other two render paths: str() and get_sql() without a context use the creating class's dialect
     def drop_table_str(Q, n): return str(Q.drop_table(n))
@@ -153,6 +174,22 @@ def sites():
     import types
 
     return {k: v for k, v in locals().items() if isinstance(v, types.FunctionType) and k not in ("render", "Table", "shared")}
+
+
+# sites whose name is the alias of a table that the same statement uses as a qualifier: the alias must be DEFINED, i.e. written
+# (after an optional AS) directly behind the table it renames - a qualifier that no source introduces misses its definition
+DEFINES = {"table_alias": "t", "join_table_alias": "u", "field_of_aliased_table": None, "update_table_alias": "t", "delete_table_alias": "t",
+           "update_join_alias": "t"}
+
+
+def defines(toks, table, name):
+    seq = [(t["t"], t["v"]) for t in toks if t["t"] in ("id", "word")]
+    for i, tv in enumerate(seq):
+        if tv == ("id", table):
+            rest = seq[i + 1:i + 3]
+            if rest[:1] == [("id", name)] or rest == [("word", "AS"), ("id", name)]:
+                return True
+    return False
 
 
 # MySQL has no conflict target: on_conflict() fields are legitimately not part of INSERT IGNORE / ON DUPLICATE KEY UPDATE
@@ -266,6 +303,12 @@ def run(tier: str) -> int:
                 # plain lower-case word is then damaged, one finding for the site
                 rep.discrepancy([[d, sname, "unquoted-site"]], {"dialect": d, "site": sname, "name": MARK, "text": btext, "fault": "unquoted"},
                                 what="the site emits the name as a bare word (definition and reference written differently)")
+                continue
+            if DEFINES.get(sname) and any(t["t"] == "id" and t["v"] == MARK and i and btoks[i - 1]["v"] == "." or
+                                          (t["t"] == "id" and t["v"] == MARK and i + 1 < len(btoks) and btoks[i + 1]["v"] == ".") for i, t in enumerate(btoks)) \
+                    and not defines(btoks, DEFINES[sname], MARK):
+                rep.discrepancy([[d, sname, "alias-never-defined"]], {"dialect": d, "site": sname, "name": MARK, "text": btext, "fault": "undefined-alias"},
+                                what="the alias qualifies columns but is not introduced next to its table")
                 continue
             for n in nm:
                 if n == "*" and sname in ("select_str", "returning"):
